@@ -227,6 +227,8 @@ impl Store {
     /// As such, there is also no guarantee that the data you see is
     /// already persisted.
     fn tables(&mut self) -> Result<&Tables<'_>> {
+        #[cfg(iroh_docs_verif)]
+        self.verif_access()?;
         let guard = &mut self.transaction;
         let tables = match std::mem::take(guard) {
             CurrentTransaction::None => {
@@ -264,6 +266,8 @@ impl Store {
     /// To ensure that the data is persisted, acquire a snapshot of the database
     /// or call flush.
     fn modify<T>(&mut self, f: impl FnOnce(&mut Tables) -> Result<T>) -> Result<T> {
+        #[cfg(iroh_docs_verif)]
+        self.verif_access()?;
         let guard = &mut self.transaction;
         let tables = match std::mem::take(guard) {
             CurrentTransaction::None => {
@@ -303,6 +307,26 @@ impl Store {
             return tables.with_tables_mut(f);
         }
         self.modify(f)
+    }
+}
+
+#[cfg(iroh_docs_verif)]
+impl Store {
+    /// Verification hook H5: when the harness controls the age of the open transaction, every
+    /// access (`tables()` / `modify()`) is numbered; at the chosen access the open write
+    /// transaction is treated as older than `MAX_COMMIT_DELAY` (committed, a new one is begun by
+    /// the caller), at all others its age is reset so that wall-clock time never interferes.
+    fn verif_access(&mut self) -> Result<()> {
+        if let Some(aged) = crate::verif::next_access_is_aged() {
+            if aged {
+                if let CurrentTransaction::Write(w) = std::mem::take(&mut self.transaction) {
+                    w.commit()?;
+                }
+            } else if let CurrentTransaction::Write(w) = &mut self.transaction {
+                w.since = n0_future::time::Instant::now();
+            }
+        }
+        Ok(())
     }
 }
 
